@@ -76,6 +76,22 @@ func runGen(seed uint64, programs, length int, kind, profile, opsPath, outPath, 
 	start := time.Now()
 	nOps := 0
 	for p := 0; p < programs; p++ {
+		if profile == "reg" {
+			rw := newRegWorld()
+			fmt.Fprintf(ops, "begin kind=reg prog=%d\n", p)
+			fmt.Fprintf(out, "begin\n")
+			regProgram(rng, length, func(l Line) string {
+				res := rw.exec(l)
+				fmt.Fprintln(ops, l.String())
+				fmt.Fprintln(out, res)
+				nOps++
+				return res
+			}, stats)
+			fmt.Fprintln(ops, "end")
+			fmt.Fprintln(out, "end")
+			rw.close()
+			continue
+		}
 		w, err := newWorld(kind)
 		if err != nil {
 			return err
@@ -138,6 +154,7 @@ func runReplay(opsPath, outPath string) error {
 	sc := bufio.NewScanner(in)
 	sc.Buffer(make([]byte, 1<<20), 1<<26)
 	var w *World
+	var rw *RegWorld
 	for sc.Scan() {
 		line := sc.Text()
 		if strings.TrimSpace(line) == "" || strings.HasPrefix(line, "#") {
@@ -151,6 +168,16 @@ func runReplay(opsPath, outPath string) error {
 		case "begin":
 			if w != nil {
 				w.close()
+				w = nil
+			}
+			if rw != nil {
+				rw.close()
+				rw = nil
+			}
+			if l.str("kind", "mem") == "reg" {
+				rw = newRegWorld()
+				fmt.Fprintln(out, "begin")
+				continue
 			}
 			w, err = newWorld(l.str("kind", "mem"))
 			if err != nil {
@@ -162,8 +189,16 @@ func runReplay(opsPath, outPath string) error {
 				w.close()
 				w = nil
 			}
+			if rw != nil {
+				rw.close()
+				rw = nil
+			}
 			fmt.Fprintln(out, "end")
 		default:
+			if rw != nil {
+				fmt.Fprintln(out, rw.exec(l))
+				continue
+			}
 			if w == nil {
 				w, err = newWorld("mem")
 				if err != nil {
@@ -180,6 +215,9 @@ func runReplay(opsPath, outPath string) error {
 	}
 	if w != nil {
 		w.close()
+	}
+	if rw != nil {
+		rw.close()
 	}
 	return sc.Err()
 }
